@@ -67,7 +67,7 @@ def cfgdoc(ctx, exe):
     open(exp, 'w').write(out)
     d = vlib.drive(ctx, exe, 'cfgdoc', env={'VERIF_EXPORT': exp})
     s = json.load(open(os.path.join(d, 'summary.json')))
-    rejects, lines = vlib.tlc_trace(ctx, 'Trace_ConfigDoc', os.path.join(d, 'cfgdoc.ndjson'), shards=4)
+    rejects, lines = vlib.tlc_trace(ctx, 'Trace_ConfigDoc', os.path.join(d, 'cfgdoc.ndjson'), shards=1)   # one memo over the whole trace
     seen = {}
     for (ln, payload) in rejects:
         e = json.loads(lines[ln - 1])
